@@ -140,7 +140,8 @@ var personFields = map[string]func(p sb.V) string{
 // expectAttr is the direct Go model of attribute lookup.
 func expectAttr(c, k sb.V, args []sb.V) expect {
 	c, nptr := unwrapPtr(c)
-	if nptr > 1 {
+	if nptr > 1 || (nptr == 1 && (c.K == "cyclicnode" || c.K == "pperson")) {
+		// two levels of pointers (the cyclic node is a pointer itself)
 		return expect{mode: "nopanic"}
 	}
 	if k.K == "safe" && len(k.E) == 1 && nptr <= 1 {
@@ -506,6 +507,10 @@ func c16Keys() []sb.V {
 		vk("int", 0), vk("int", 1), vk("int", 7), vk("int", -1), vk("uint8", 2), vk("uint8", 3), vk("uint8", 255), vk("int8", -1), vk("int16", -1), vk("int32", -1), vk("int64", 0), vk("float32", 1), vk("uint64", 9),
 		{K: "bool", B: true}, {K: "bool"}, {K: "null"},
 		{K: "arr", E: []sb.V{vnum(1)}}, {K: "person", S: "k"},
+		// numbers, written out and as numbers, that only reach an existing key
+		// of a narrow integer type by wrapping around
+		vstr("3"), vstr("255"), vstr("-1"), vstr("127"), vstr("65535"), vstr("259"), vstr("511"), vstr("383"), vstr("-129"), vstr("131071"), vstr("8589934591"), vstr("4294967295"),
+		vnum(259), vnum(511), vk("int", 259), vk("int", 383), vk("int64", 8589934591), vk("int", 131071),
 	}
 }
 
@@ -893,6 +898,9 @@ func judgeIter(cs *c16Iter, it sb.Item) *Fail {
 	}
 	if flags["len"] != fmt.Sprintf("%d,false", n) || flags["iterable"] != "true" || flags["array"] != fmt.Sprint(isSeq) || flags["map"] != fmt.Sprint(isMap) {
 		return bad("predicates", fmt.Sprintf("len=%d iterable array=%v map=%v", n, isSeq, isMap), it.S)
+	}
+	if flags["lengthfilter"] != "#"+strconv.Itoa(n) {
+		return bad("length-filter", fmt.Sprintf("|length = %d, the number of steps", n), "lengthfilter="+flags["lengthfilter"])
 	}
 	var want, got []string
 	for i := 0; i < n; i++ {
